@@ -17,7 +17,7 @@
 (* shaped parser built returns the node list Eval!Find assigns to the      *)
 (* RFC's parse of the text, on each of six discriminating documents.       *)
 (***************************************************************************)
-EXTENDS Parser, Canon, Evaluator, Json
+EXTENDS Parser, Canon, Evaluator, Unparse, Json
 
 CONSTANTS UnitSet,        \* which family of units
           MaxUnits,
@@ -88,6 +88,12 @@ MCDocs == {MCDocSeq[i] : i \in 1..Len(MCDocSeq)}
 T16 == (Impl.ok /\ Rfc.v = "accept") =>
            \A d \in MCDocs : DcSegs(Impl.v, d, Builtins) \/ ImplFind(Impl.v, d, Builtins) = Find(Parse(text, TRUE).v, d, Builtins)
 
+(* ---- T2: the serialiser of the specification (Unparse.tla) and its parser agree ------------------------------ *)
+T2 == (Impl.ok /\ Rfc.v = "accept") =>
+          LET t == Unparse(Impl.v)
+              p == Parse(t, TRUE)
+          IN  p.ok /\ NF(p.v) = NF(Impl.v) /\ StringsCanonical(t)
+
 \* export for the conformance run: the text and what the implementation-shaped model says
 Export == (n > ExportAllUpTo /\ ~Impl.ok /\ Impl.kind = "syntax") \/ PrintT("GEN " \o ToJson([q |-> text, ok |-> Impl.ok, kind |-> IF Impl.ok THEN "" ELSE Impl.kind,
                                    rfc |-> Rfc.v, why |-> Rfc.why, ast |-> IF Impl.ok THEN Impl.v ELSE <<>>,
@@ -96,5 +102,7 @@ Export == (n > ExportAllUpTo /\ ~Impl.ok /\ Impl.kind = "syntax") \/ PrintT("GEN
                                            THEN [i \in 1..Len(MCDocSeq) |->
                                                     IF DcSegs(Impl.v, MCDocSeq[i], Builtins) THEN <<"dc">>
                                                     ELSE LET nl == ImplFind(Impl.v, MCDocSeq[i], Builtins) IN [k \in 1..Len(nl) |-> nl[k].loc]]
-                                           ELSE <<>>]))
+                                           ELSE <<>>,
+                                   \* the specification's own canonical text of the query: one more valid input
+                                   canon |-> IF Impl.ok /\ Rfc.v = "accept" THEN Unparse(Impl.v) ELSE <<>>]))
 =============================================================================
